@@ -245,6 +245,11 @@ var maxDur = big.NewInt(math.MaxInt64)
 func cmpBig(a, b *big.Int) int { return a.Cmp(b) }
 
 // observe calls the real policy and projects the result to order relations.
+// sharedPolicy: when set, observe applies this policy object (a client keeps one for all its requests) instead of a fresh one.
+var sharedPolicy interface {
+	Apply(min, max time.Duration, attemptNum int, resp *http.Response) time.Duration
+}
+
 func observe(cfg *httputils.RetryPolicyConfiguration, min, max time.Duration, n int, status int, hclass, hvalue string, hasHeader bool, until time.Duration, prev *time.Duration) applyEvent {
 	var resp *http.Response
 	if status != 0 {
@@ -253,9 +258,13 @@ func observe(cfg *httputils.RetryPolicyConfiguration, min, max time.Duration, n 
 			resp.Header["Retry-After"] = []string{hvalue}
 		}
 	}
-	pol := httputils.BackOffPolicyFactory(cfg)
+	var wait time.Duration
 	t0 := time.Now()
-	wait := pol.Apply(min, max, n, resp)
+	if sharedPolicy != nil {
+		wait = sharedPolicy.Apply(min, max, n, resp)
+	} else {
+		wait = httputils.BackOffPolicyFactory(cfg).Apply(min, max, n, resp)
+	}
 	elapsed := time.Since(t0)
 	ev := applyEvent{Op: "Apply", Enabled: cfg.Enabled, Backoff: cfg.BackOffEnabled, Linear: cfg.LinearBackOffEnabled, RA: !cfg.RetryAfterDisabled,
 		Status: status, Header: hclass, Min: min.String(), Max: max.String(), Wait: wait.String(), N: n, HeaderValue: hvalue}
@@ -394,17 +403,29 @@ func record(a *hk.Args) error {
 		min, max := materialiseWaits(wclasses[rng.Intn(len(wclasses))], rng)
 		status := []int{0, 200, 429, 500, 503}[rng.Intn(5)]
 		hc := hclasses[rng.Intn(len(hclasses))]
-		// a stream of increasing attempt numbers with a fixed response
+		// a stream of increasing attempt numbers with a fixed response; every other stream goes through ONE policy object, as a
+		// client's requests do, and its responses change from step to step (hint, no hint, another status): each wait is a
+		// function of (min, max, attempt, response) alone
+		mixed := t%2 == 1
+		sharedPolicy = nil
+		if mixed {
+			sharedPolicy = httputils.BackOffPolicyFactory(cfg)
+		}
 		var prev *time.Duration
 		attempt := 0
 		for k := 0; k < 12; k++ {
+			if mixed {
+				status = []int{0, 200, 429, 500, 503, 429, 503}[rng.Intn(7)]
+				hc = hclasses[rng.Intn(len(hclasses))]
+				prev = nil
+			}
 			hv, has, until := materialiseHeader(hc, rng)
 			ev := observe(cfg, min, max, attempt, status, hc, hv, has, until, prev)
 			if status == 0 {
 				ev.Status, ev.Header = 200, "absent"
 			}
 			w.Write(ev)
-			if !(cfg.Enabled && cfg.BackOffEnabled && cfg.LinearBackOffEnabled) { // linear waits are jittered: no ordering claim
+			if !mixed && !(cfg.Enabled && cfg.BackOffEnabled && cfg.LinearBackOffEnabled) { // linear waits are jittered: no ordering claim
 				d, _ := time.ParseDuration(ev.Wait)
 				prev = &d
 			}
@@ -421,6 +442,7 @@ func record(a *hk.Args) error {
 			}
 		}
 	}
+	sharedPolicy = nil
 	// the real client against a local server (loopback only)
 	clients := 6
 	if a.Tier == "thorough" {
